@@ -14,11 +14,12 @@ UNIT = dict(
             ("sub", "ghost-inject", r"proof \{ tr\.future_created\(\); \}", "proof { tr.draws_at_future = tr.draws; tr.future_created(); }", 1),
             ("inject", None, "start", "broadcast use chaos_float_axioms;"),
             ("sub", "R8-lock", r"\brng\.lock\(\)\.unwrap\(\)", "vx_lock(&rng)", -1),
-            ("sub", "R14-float", r"let mut error_roll: f64 = 1\.0;", "let mut error_roll: f64 = vx_one();", 1),
-            ("sub", "R14-float", r"config\.error_injector\.error_rate\(\) > 0\.0", "vx_f64_positive(config.error_injector.error_rate())", 1),
-            ("sub", "R14-float", r"config\.latency_rate > 0\.0", "vx_f64_positive(config.latency_rate)", 1),
-            ("sub", "R14-float", r"error_roll >= config\.error_injector\.error_rate\(\)", "vx_f64_ge(error_roll, config.error_injector.error_rate())", 1),
-            ("sub", "R14-float", r"latency_roll < config\.latency_rate", "vx_f64_lt(latency_roll, config.latency_rate)", 1),
+            # f64 comparisons and literals go through the float shims, wherever they stand
+            ("sub", "R14-float", r"(?<![\w.])1\.0(?![\w.])", "vx_one()", -1),
+            ("sub", "R14-float", r"config\s*\.\s*error_injector\s*\.\s*error_rate\(\)\s*>\s*0\.0", "vx_f64_positive(config.error_injector.error_rate())", -1),
+            ("sub", "R14-float", r"config\s*\.\s*latency_rate\s*>\s*0\.0", "vx_f64_positive(config.latency_rate)", -1),
+            ("sub", "R14-float", r"\b(\w+)\s*>=\s*config\s*\.\s*error_injector\s*\.\s*error_rate\(\)", r"vx_f64_ge(\1, config.error_injector.error_rate())", -1),
+            ("sub", "R14-float", r"\b(\w+)\s*<\s*config\s*\.\s*latency_rate\b", r"vx_f64_lt(\1, config.latency_rate)", -1),
             ("sub", "R14-rng", r"\.random\(\)", ".vx_random(Tracked(tr))", 2),
             ("sub", "R14-rng", r"(\w+)\.random_range\(min_ms\.\.=max_ms\)", r"\1.vx_random_range(min_ms, max_ms, Tracked(tr))", 1),
             ("sub", "R9-paths", r"tokio::time::sleep", "sleep", 1),
